@@ -1,16 +1,24 @@
 #!/bin/bash
 # tools/seed_run.sh <seeded dir> <property> [tier]
 # Applies seeded/<id>/patch.diff to /repo, runs the property's check, and undoes the patch straight afterwards.
+# With SEED_SCRATCH=1 the patch is applied to a scratch worktree of /repo instead (VERIF_REPO points the check at
+# it), so that /repo stays untouched while other checks are running against it.
 set -u
 D=$(realpath "$1"); P=$2; T=${3:-quick}
 cd /verif
-git -C /repo diff --quiet || { echo "/repo is dirty"; exit 2; }
-git -C /repo apply "$D/patch.diff" || { echo "PATCH-DOES-NOT-APPLY"; exit 2; }
+R=/repo
+if [ "${SEED_SCRATCH:-0}" = 1 ]; then
+  R=/tmp/seedrun_$$; git -C /repo worktree add -q --detach $R HEAD || exit 2
+  export VERIF_REPO=$R
+else
+  git -C /repo diff --quiet || { echo "/repo is dirty"; exit 2; }
+fi
+git -C $R apply "$D/patch.diff" || { echo "PATCH-DOES-NOT-APPLY"; [ $R != /repo ] && git -C /repo worktree remove --force $R; exit 2; }
 # evidence/<P>.json must keep describing the UNCHANGED tree: save it and put it back afterwards
-[ -f evidence/$P.json ] && cp evidence/$P.json .work/evidence_$P.saved
+[ -f evidence/$P.json ] && cp evidence/$P.json .work/evidence_$P.saved.$$
 ./check "$P" "$T" > "$D/check_$P.log" 2>&1; rc=$?
-git -C /repo checkout -q -- .
-[ -f .work/evidence_$P.saved ] && mv .work/evidence_$P.saved evidence/$P.json
+if [ $R = /repo ]; then git -C /repo checkout -q -- .; else git -C /repo worktree remove --force $R; fi
+[ -f .work/evidence_$P.saved.$$ ] && mv .work/evidence_$P.saved.$$ evidence/$P.json
 rm -rf replays/$P
 grep -E '^VIOLATION|^FAIL|^KNOWN' "$D/check_$P.log" | cut -c1-400
 echo "exit=$rc"
